@@ -1916,6 +1916,41 @@ def run(ctx, anchors=None):
                      % (f.name, astq.estr(n)[:60], small, big, small))
     ctx.floor("R15.25", n25, 1, "unsigned size differences with a varying subtrahend")
 
+    # ---- R15.26 `amounts` is subscripted by the input index (R03.1): every successful path of parse_transaction leaves it with at
+    # least one entry per input - padded by the `while (amounts.size() < vin.size()) push_back` loop, resized to vin.size(), or
+    # decided not to be shorter. (A path that keeps a shorter list makes amounts[txin_index] a write behind the vector.)
+    ctx.rule("R15.26", "every successful path of parse_transaction leaves one amount per transaction input")
+    ptx = fb.fn("Instance::parse_transaction", file="instance.cpp")
+    X26 = _sx.Explorer(prog, inline=lambda fn, n_: False, transparent=lambda n_: True)
+    try:
+        outs26 = [o for o in X26.explore(ptx, this=("a", "this"), limit=4000) if o.status == "ret" and o.ret == _sx.C(1)]
+    except _sx.Unsupported as e:
+        raise AnalysisBroken("R15.26: parse_transaction was not evaluated (%s)" % str(e)[:60])
+
+    def vin_size(t):
+        return isinstance(t, tuple) and t[:2] == ("ap", "m:size") and isinstance(t[2], tuple) and t[2][0] == "f" and t[2][2] == "vin"
+    bad26 = None
+    for o in outs26:
+        a = o.heap.get((("a", "this"), "amounts"), ("f", ("a", "this"), "amounts"))
+        ok26 = False
+        if isinstance(a, tuple) and a[:2] == ("ap", "loopvar") and isinstance(a[2], tuple) and a[2][:2] == ("ap", "while"):
+            c_ = a[2][2]
+            ok26 = isinstance(c_, tuple) and c_[:2] == ("ap", "<") and isinstance(c_[2], tuple) and c_[2][:2] == ("ap", "m:size") and vin_size(c_[3]) and \
+                isinstance(a[3], tuple) and a[3][:2] == ("ap", "mut:push_back")
+        if not ok26 and isinstance(a, tuple) and a[:2] == ("ap", "mut:resize") and len(a) >= 4 and vin_size(a[3]):
+            ok26 = True
+        if not ok26:
+            for (t_, v_) in o.conds:
+                if isinstance(t_, tuple) and t_[:2] == ("ap", "<") and len(t_) == 4 and t_[2] == ("ap", "m:size", a) and vin_size(t_[3]) and not v_:
+                    ok26 = True
+        if not ok26:
+            bad26 = _sx.show(a)[:90]
+    ctx.site(len(outs26))
+    ctx.floor("R15.26", len(outs26), 1, "successful paths of parse_transaction")
+    ctx.inst(bad26 is None, "R15.26", "one-amount-per-input", ptx.loc(), "on all %d successful paths `amounts` is padded / resized to the number of inputs" % len(outs26),
+             "a successful path of parse_transaction leaves amounts as `%s` - possibly shorter than vin: configure_tx_txin's `amounts[txin_index] = ...` then writes behind the vector (--tx=<k amounts>:<hex> with the spent output referenced by input #k or later)"
+             % (bad26 or ""))
+
     # ---------------------------------------------------------------- R15.9
     ev = fb.fn("Instance::eval", file="instance.cpp")
     opstep = fb.fn("StepScript", file="script/interpreter.cpp")
@@ -2230,6 +2265,7 @@ MUTANTS = [
     dict(name="escape-writes-uncounted-character", file="kerl/kerl.c", find="        case '\"': *(ptr++) = '\\\\'; *(ptr++) = '\"'; break;\n        default: *(ptr++) = input[i];", replace="        case '\"': *(ptr++) = '\\\\'; *(ptr++) = '\"'; break;\n        case '$': *(ptr++) = '\\\\'; *(ptr++) = '$'; break;\n        default: *(ptr++) = input[i];", expect=["R15.24:sizing-and-writing-agree@escape"]),
     dict(name="escape-counts-one-character-less", file="kerl/kerl.c", find="case '\\n': case '\\t': case '\\r': case '\\b': case '\\\\': case '\"': escapes++;", replace="case '\\n': case '\\t': case '\\r': case '\\\\': case '\"': escapes++;", expect=["R15.24:sizing-and-writing-agree@escape"]),
     dict(name="argument-count-difference-unguarded", file="tap.cpp", find="    size_t sargc = sai < ca.l.size() ? ca.l.size() - sai : 0;", replace="    size_t sargc = ca.l.size() - sai;", expect=["R15.25:difference-does-not-wrap"]),
+    dict(name="amounts-padded-only-when-none-given", file="instance.cpp", find="    while (amounts.size() < tx->vin.size()) amounts.push_back(0);", replace="    if (amounts.empty()) amounts.resize(tx->vin.size(), 0);", expect=["R15.26:one-amount-per-input"]),
     dict(name="token-sized-stack-array", file="instance.cpp", find="            if (std::to_string(n) == v) {", replace="            char nbuf[vlen + 1];\n            snprintf(nbuf, vlen + 1, \"%d\", n);\n            if (!strcmp(nbuf, v)) {", expect=["R15.18:vla:nbuf@Instance::eval"]),
     dict(name="hashtype-buffer-uninitialised", file="debugger/interpreter.h", find="    char buf[100] = \" \"; // the names are joined with blanks; the leading one is skipped below", replace="    char buf[100];", expect=["R15.19:buffer-written-before-read:buf@hashtype_str"]),
     dict(name="value-member-without-initialiser", file="value.h", find="    opcodetype opcode = OP_0;", replace="    opcodetype opcode;", expect=["R15.20:members-initialised:Value"]),
